@@ -74,6 +74,20 @@ Proof.
   eexists. repeat split; vm_compute; reflexivity.
 Qed.
 
+(* Python, an alias applying type arguments to a generic enum: the Union the enum's name is bound to is not generic *)
+Lemma python_generic_enum_arg_refuted :
+  exists cfg pd text, dom_C10 CPY pd = true /\ known_C10 CPY [] pd = ["C10-python-generic-enum-arg"%string] /\
+    py_generate uc_exec cfg pd = Ok text /\ contains_sub (lit "Al = List[G[int]]") text = true /\
+    contains_sub (lit "G = GV") text = true.
+Proof.
+  exists w_py_cfg,
+    (w_pd [] [EAlgebraic (lit "t") (lit "c") {| eid := w_id "G"; egenerics := [lit "T"]; ecomments := [];
+                                                 evariants := [VTuple (RSimple (lit "T")) {| vid := w_id "V"; vcomments := [] |}];
+                                                 edecs := []; erecursive := false; eredacted := false |}]
+          [{| aid := w_id "Al"; agenerics := []; atype := RVec (RGeneric (lit "G") [RPrim PU8]); acomments := []; adecs := []; aredacted := false |}]).
+  eexists. repeat split; vm_compute; reflexivity.
+Qed.
+
 (* Python, an algebraic enum without variants (reachable from the IR only: the parser rejects tag/content on an enum
    whose variants are all unit or skipped): `Union[]` *)
 Lemma python_empty_union_refuted :
